@@ -151,3 +151,43 @@ func getterExpr(fn *ssa.Function) (string, bool) {
 	}
 	return ex(ret.Results[0])
 }
+
+// cmdGenParams prints, for every contract of a module function that has no "params" line yet,
+// "<file>:<line>:(recv, p1, p2...)" - the names the source currently uses. A script pastes them into the
+// contract files, which makes the contracts independent of later renames of receivers and parameters.
+func cmdGenParams(args []string) int {
+	p, err := loadProgram("/repo")
+	if err != nil {
+		fmt.Println(err)
+		return 2
+	}
+	cs, err := loadContracts(p)
+	if err != nil {
+		fmt.Println(err)
+		return 2
+	}
+	fns := p.allFunctions()
+	for _, k := range sortedKeys(cs.ByKey) {
+		c := cs.ByKey[k]
+		if (c.Extern && !c.Opaque) || c.Iface || len(c.ParamNames) > 0 {
+			continue
+		}
+		fn := fns[strings.TrimSuffix(k, "#impl")]
+		if fn == nil || len(fn.Params) == 0 {
+			continue
+		}
+		var names []string
+		ok := true
+		for _, pr := range fn.Params {
+			if pr.Name() == "" || pr.Name() == "_" {
+				ok = false
+			}
+			names = append(names, pr.Name())
+		}
+		if !ok {
+			continue
+		}
+		fmt.Printf("%s:%d:(%s)\n", c.File, c.Line, strings.Join(names, ", "))
+	}
+	return 0
+}
